@@ -245,6 +245,18 @@ def _group_ptr_queries_with_known_answers(
     return [query_bucket.out for query_bucket in query_buckets]
 
 
+def _name_can_be_written(name: str) -> bool:
+    """Check that a name received from the network can be written to an outgoing packet.
+
+    Labels are decoded with errors='replace', which turns every byte that is
+    not valid UTF-8 into a three byte character. A label of up to 63 bytes on
+    the wire can be too long to be sent back once it has been decoded.
+    """
+    if '\ufffd' not in name:
+        return True
+    return all(len(label.encode('utf-8')) <= 63 for label in name.split('.'))
+
+
 def generate_service_query(
     zc: 'Zeroconf',
     now_millis: float_,
@@ -258,12 +270,17 @@ def generate_service_query(
     question_history = zc.question_history
     cache = zc.cache
     for type_ in types_:
+        # The types to refresh and the known answers come from records received
+        # from the network. One that cannot be written would raise when the query
+        # is sent, and an exception in the scheduler stops it for good.
+        if not _name_can_be_written(type_):
+            continue
         question = DNSQuestion(type_, _TYPE_PTR, _CLASS_IN)
         question.unicast = qu_question
         known_answers = {
             record
             for record in cache.get_all_by_details(type_, _TYPE_PTR, _CLASS_IN)
-            if not record.is_stale(now_millis)
+            if not record.is_stale(now_millis) and _name_can_be_written(record.alias)  # type: ignore[attr-defined]
         }
         if not qu_question and question_history.suppresses(question, now_millis, known_answers):
             log.debug("Asking %s was suppressed by the question history", question)
